@@ -31,12 +31,12 @@ typedef struct {
 static const cfg_t cfgs[] = {
     /* ------------------------------------------------------------ quick */
     { "n=2 r=2: U0 + U1", 1, 2, { K_U0, K_U1 }, 2, { 2, 2 }, 0, 0 },
-    { "n=2 r=3: U1 + X", 1, 2, { K_U1, K_X }, 3, { 2, 2, 2 }, 0, 0 },
     { "n=3 r=2: U0 + U0 + X", 1, 3, { K_U0, K_U0, K_X }, 2, { 3, 3 }, 0, 0 },
+    { "n=2 r=2: X + M (primary ULT)", 1, 2, { K_X, K_M }, 2, { 2, 2 }, 0, 0 },
+    { "n=2 r=3: U1 + X", 1, 2, { K_U1, K_X }, 3, { 2, 2, 2 }, 0, 0 },
+    { "reinit 2->2 r=2: X + U1", 1, 2, { K_X, K_U1 }, 2, { 2, 2 }, 1, 0 },
     { "n=2 r=2: X + U0 | tasklet on ES1 (ERR_BARRIER)", 1, 2, { K_X, K_U0 }, 2,
       { 2, 2 }, 0, 1 },
-    { "reinit 2->2 r=2: X + U1", 1, 2, { K_X, K_U1 }, 2, { 2, 2 }, 1, 0 },
-    { "n=2 r=2: X + M (primary ULT)", 1, 2, { K_X, K_M }, 2, { 2, 2 }, 0, 0 },
     /* --------------------------------------------------------- thorough */
     { "n=3 r=2: U0 + U1 + X", 0, 3, { K_U0, K_U1, K_X }, 2, { 3, 3 }, 0, 0 },
     { "reinit 2->3 r=2: U1 + X (+ U0 in round 1)", 0, 3, { K_U1, K_X, K_U0 }, 2,
